@@ -4,6 +4,7 @@ import (
 	"time"
 
 	"github.com/osrg/gobgp/v4/internal/pkg/table"
+	"github.com/osrg/gobgp/v4/pkg/config/oc"
 	"github.com/osrg/gobgp/v4/pkg/packet/bgp"
 )
 
@@ -49,5 +50,80 @@ func VH_c02_server_history() {
 	}
 	if inAdj && !usable {
 		vReach("looped")
+	}
+}
+
+// C02 (server, several sources): announcements and withdrawals from two eBGP sources for one
+// prefix, the loss of a source's session and the removal of a source through deleteNeighbor (the
+// function behind DeletePeer). After every history the Loc-RIB holds exactly the latest
+// un-withdrawn route of each source whose session is still up - one per source, best first -
+// and each Adj-RIB-In and its counters agree.
+func VH_c02_server_sources() {
+	fams := []bgp.Family{bgp.RF_IPv4_UC}
+	s := vServer(65000, fams)
+	ca, cb := vNeighbor(2, 65001, 65000, fams), vNeighbor(3, 65002, 65000, fams)
+	src := []*peer{vEstablished(s, ca, fams), vEstablished(s, cb, fams)}
+	confs := []*oc.Neighbor{ca, cb}
+	prefix := vPrefix4(10, 1, 0, 0, 16)
+	var up, has, looped [2]bool
+	up[0], up[1] = true, true
+	var lastLen [2]int
+	steps := vParam("steps")
+	for i := 0; i < steps; i++ {
+		k := vChoice("source", 2)
+		switch vChoice("event", 4) {
+		case 0:
+			l := 1 + vChoice("aspath_len", 2)
+			x := vU32("as") // the local AS here makes the route unusable (loop), still stored in the Adj-RIB-In
+			vAssume(x != 0)
+			aspath := []uint32{uint32(65001 + k), x}[:l]
+			vRecv(s, src[k], vUpdate4(prefix, false, aspath, vAddr4(10, 0, 0, byte(2+k))), int64(10+i))
+			if up[k] {
+				has[k], lastLen[k], looped[k] = true, l, l == 2 && x == 65000
+			}
+		case 1:
+			vRecv(s, src[k], vUpdate4(prefix, true, nil, vAddr4(10, 0, 0, byte(2+k))), int64(10+i))
+			if up[k] {
+				has[k] = false
+			}
+		case 2:
+			vAssume(up[k])
+			vTransition(s, src[k], bgp.BGP_FSM_IDLE, fsmReadFailed)
+			up[k], has[k] = false, false
+		default:
+			vAssume(up[k])
+			vAssert(s.deleteNeighbor(confs[k], bgp.BGP_ERROR_CEASE, bgp.BGP_ERROR_SUB_PEER_DECONFIGURED, false) == nil, "an existing peer cannot be deleted")
+			src[k].fsm.state.Store(bgp.BGP_FSM_IDLE)
+			up[k], has[k] = false, false
+		}
+	}
+	loc := s.globalRib.GetPathList(table.GLOBAL_RIB_NAME, 0, fams)
+	n := 0
+	for k := range src {
+		found := 0
+		for _, p := range loc {
+			if p.GetSource().Address == vAddr4(10, 0, 0, byte(2+k)) {
+				found++
+				vAssert(len(p.GetAsList()) == lastLen[k], "the Loc-RIB holds an older route of a source than its latest announcement")
+			}
+		}
+		stored, want := 0, 0
+		if has[k] {
+			stored = 1
+			if !looped[k] {
+				want = 1
+			}
+		}
+		vAssert(found == want, "the Loc-RIB does not hold exactly the latest un-withdrawn, loop-free route of each source whose session is up")
+		n += want
+		vAssert(src[k].adjRibIn.Count(fams) == stored && src[k].adjRibIn.Accepted(fams) == want, "an Adj-RIB-In (or its accepted counter) disagrees with the latest un-withdrawn route of its session")
+	}
+	vAssert(len(loc) == n, "the Loc-RIB holds a route of no current source")
+	if n == 2 {
+		vAssert(len(loc[0].GetAsList()) <= len(loc[1].GetAsList()), "the Loc-RIB is not ordered best first")
+		vReach("two")
+	}
+	if !up[0] || !up[1] {
+		vReach("ended")
 	}
 }
